@@ -738,16 +738,16 @@ func FieldsSlice(ops []Op) []interface{} {
 var setMu sync.Mutex
 
 type saved struct {
-	lf, mf, tf, ef, cf, sf                 string
-	lt, ld, li, lw, le, lfa, lp            string
-	tfmt                                    string
-	du                                      time.Duration
-	di                                      bool
-	fp                                      int
-	em                                      func(error) interface{}
-	sm                                      func(error) interface{}
-	im                                      func(interface{}) ([]byte, error)
-	ts                                      func() time.Time
+	lf, mf, tf, ef, cf, sf      string
+	lt, ld, li, lw, le, lfa, lp string
+	tfmt                        string
+	du                          time.Duration
+	di                          bool
+	fp                          int
+	em                          func(error) interface{}
+	sm                          func(error) interface{}
+	im                          func(interface{}) ([]byte, error)
+	ts                          func() time.Time
 }
 
 func errText(err error) string { return err.Error() }
@@ -846,6 +846,9 @@ func (s Settings) Apply() (restore func()) {
 		zerolog.ErrorStackMarshaler = func(err error) interface{} { return errors.New("stack-as-error") }
 	case "obj":
 		zerolog.ErrorStackMarshaler = func(err error) interface{} { return &errObj{"stack-obj"} }
+	case "nilerr":
+		// the usual errors.As idiom on an error that wraps nothing: a typed-nil error in an interface
+		zerolog.ErrorStackMarshaler = func(err error) interface{} { var pe *ptrErr; return pe }
 	case "frames":
 		zerolog.ErrorStackMarshaler = func(err error) interface{} {
 			return []map[string]string{{"func": "f", "line": "1"}, {"func": "g", "line": "2"}}
@@ -1052,9 +1055,9 @@ func Finish(e *zerolog.Event, ev EventSpec) {
 
 // Result of running a program.
 type Result struct {
-	Dests  [][]Write // writes per destination: 0 = root writer, then one per output step in step order
-	Rt     *Rt
-	Panic  interface{}
+	Dests [][]Write // writes per destination: 0 = root writer, then one per output step in step order
+	Rt    *Rt
+	Panic interface{}
 }
 
 // Run executes the program and returns everything the writers received.
